@@ -67,9 +67,19 @@ def run_plan(plan, version, fault_kind_impl=None, platform="ledger"):
         # a request that does not start with a reconnection sends command APDUs straight away
         state["cmd_seen"] = True
         world.reset_counters()
-        if r == 0:
+        if r == 0 and plan["kind"] == "connfail":
+            # the device drops off at this EXIT exchange as usual and is not back when the command re-opens the link
+            armed = {"n": 0}
+
+            def hook(w, apdu, idx, pos=plan["pos"] - 1):
+                if idx == pos:
+                    w.connect_failures = 1
+                return None
+            world.fault_hook = hook
+        elif r == 0:
             world.faults = {plan["pos"] - 1: (plan["kind"],)}
         if r == 1:
+            world.fault_hook = None
             world.connect_failures = plan["connfail"]
         if bt and r == 1 + plan["connfail"]:
             # the first reconnection that opens: its bt-th bring-up exchange times out
@@ -111,7 +121,8 @@ def run(ctx):
         if r.violated:
             raise core.MachineryError("Link model violates %s" % r.violated)
         res.add_tlc(r, "%s exhaustive" % cfgs[0])
-        never = [a for a, c in r.action_counts().items() if c == 0]
+        never = [a for a, c in r.action_counts().items() if c == 0
+                 and not (version == 1 and a.startswith("Exit"))]      # protocol v1 has no uiHeartbeat
         if never:
             raise core.MachineryError("vacuity: Link actions never taken: %s" % never)
         plans, rg = tlc.generate("GenLink", cfgs[1])
